@@ -821,3 +821,60 @@ def _eye(eng, st, args, kwargs):
     dev = dv if (dv is not None and dv.kind != KNone) else V(KDevice, z3.IntVal(1))
     val = mf('diag', M, M)(mf('full', LS, R, M)(shape_list(eng, [V(KInt, n)]).term, z3.RealVal(1)))
     return new_tensor(eng, st, val, shape_list(eng, [V(KInt, n), V(KInt, n)]), dtype, dev)
+
+
+# --------------------------------------------------------------------------- more of the functional API (robustness: a
+# rewrite that uses the method form of an operator, or a constructor variant, stays inside the generator's subset)
+def _binop_method(op):
+    def fn(eng, st, recv, args, kwargs):
+        if kwargs.get('alpha') is not None or kwargs.get('out') is not None:
+            raise Unsupported('tensor method with alpha= / out=')
+        return tensor_binop(eng, st, op, recv, args[0])
+    return fn
+
+
+for _n, _op in (('mul', 'Mult'), ('add', 'Add'), ('sub', 'Sub'), ('div', 'Div'), ('matmul', 'MatMult'), ('mm', 'MatMult')):
+    if ('Tensor', _n) not in METHODS:
+        METHODS[('Tensor', _n)] = _binop_method(_op)
+
+
+def _binop_function(op):
+    def fn(eng, st, args, kwargs):
+        if kwargs:
+            raise Unsupported('torch binary function with keyword arguments')
+        return tensor_binop(eng, st, op, args[0], args[1])
+    return fn
+
+
+for _n, _op in (('mul', 'Mult'), ('add', 'Add'), ('sub', 'Sub'), ('div', 'Div'), ('matmul', 'MatMult'), ('mm', 'MatMult')):
+    if 'torch.' + _n not in TABLE:
+        TABLE['torch.' + _n] = _binop_function(_op)
+
+
+@method('Tensor', 'detach')
+def _detach(eng, st, recv, args, kwargs):
+    return like(eng, st, recv, tv(eng, st, recv), view=True)
+
+
+def _filled(value):
+    def fn(eng, st, args, kwargs):
+        sh = args[0] if len(args) == 1 else eng.make_list(list(args), KInt)
+        if isinstance(sh.kind, KTuple):
+            sh = shape_list(eng, [V(KInt, eng.as_int(i, st)) for i in tuple_items(sh)])
+        elif sh.kind == KInt:
+            sh = shape_list(eng, [sh])
+        dt, dv = _dev_dtype(eng, st, kwargs)
+        val = mf('full', LS, R, M)(sh.term, z3.RealVal(value))
+        return new_tensor(eng, st, val, sh, dt, dv)
+    return fn
+
+
+for _n, _v in (('zeros', 0), ('ones', 1)):
+    if 'torch.' + _n not in TABLE:
+        TABLE['torch.' + _n] = _filled(_v)
+
+
+@builtin('torch.ones_like')
+def _ones_like(eng, st, args, kwargs):
+    t = args[0]
+    return like(eng, st, t, mf('full', LS, R, M)(tf(eng, st, t, 'shape').term, z3.RealVal(1)))
